@@ -1,3 +1,6 @@
+import Harper.Driver.Condense
+import Harper.Driver.Server
+import Harper.Driver.Effects
 import Harper.Driver.Wasm
 import Harper.Driver.DictIO
 import Harper.Driver.Mask
@@ -79,7 +82,12 @@ def handlers : List (String × (List String → String)) := [
   ("cursor", Mask.handleCursor),
   ("mdtrav", Mask.handleMdTrav),
   ("dio", DictIO.handleDio), ("dload", DictIO.handleDload), ("dsave", DictIO.handleDsave), ("dchunk", DictIO.handleDchunk),
-  ("wasm", Wasm.handleWasm)
+  ("wasm", Wasm.handleWasm),
+  ("srv", Server.handleSrv),
+  ("fdn", Effects.handleFdn),
+  ("eff", Effects.handleEff),
+  ("doc", Condense.handleDoc),
+  ("pieces", Condense.handlePieces)
 ]
 
 def handle (line : String) : String :=
